@@ -264,7 +264,11 @@ func (s *sgSuite) hexForms(a sdk.AccAddress, allowBad bool) (string, string) {
 		str := h[:len(h)-1]
 		return str, junk(str)
 	default:
-		str := r.PickStr("", "0x", "zz"+h[2:], a.String())
+		// ... among them account-address spellings of the payer: its bech32 form, and the bech32 form of a 32-byte address
+		// (module-derived / interchain-account length) whose last 20 bytes are the payer's - a handler that learns to accept
+		// bech32 senders must not derive the paying EVM account from the tail of a longer signer address
+		long := sdk.AccAddress(append([]byte{0xa5, 0xa5, 0xa5, 0xa5, 0xa5, 0xa5, 0xa5, 0xa5, 0xa5, 0xa5, 0xa5, 0xa5}, a.Bytes()...)).String()
+		str := r.PickStr("", "0x", "zz"+h[2:], a.String(), long, long)
 		return str, junk(str)
 	}
 }
